@@ -109,6 +109,12 @@ CHECKS = {
          "mappings must cover get_size and disappear on free, owner frees must remove segment and lock semaphore. N processes x M locked non-atomic increments must add up; processes released at the same instant open a fresh name and the handles "
          "obtained must share memory and lock; scripted children are SIGKILLed before/after every IPC libc call and the documented clean-up must yield a fresh zeroed segment of the new size with a usable lock.",
     note="Two known findings (KNOWN_FINDINGS.txt): split lock after concurrent first opens; zero-size segment after a kill between shm_open and ftruncate."),
+ "C10": dict(cat="exploration", ref="§3 C10",
+    technique="runtime reference state machine compared after every call of random socket call sequences + --wrap call counters (poll count, descriptor-carrying calls, close count), lower-bound timing, helper-flag handshakes, fork-guarded odd-state probes",
+    text="Random sequences of new/option/bind/listen/connect/accept/send/receive/receive_from/send_to/shutdown/close over stream and datagram sockets of both families; all getters are compared with the model after each call; "
+         "non-blocking calls must not poll, timed calls that cannot proceed must fail with timed-out not before T, untimed blocking calls return only when they can proceed, calls on a closed socket fail with not-available without any "
+         "libc call carrying a descriptor (a decoy descriptor reusing the number stays intact), close() happens exactly once per socket, new and accepted descriptors carry FD_CLOEXEC.",
+    note="Four known findings: timed receive on a datagram socket after shutdown(read) spins forever. Kernel-dependent outcomes are executed but not judged."),
 }
 
 NOT_YET = {}
